@@ -166,6 +166,7 @@ ghost var gViaGlobalFilter bool
 ghost var gRewritten string   // request path right after MuxPath.rewrite
 ghost var gWrote bool        // write-out (deferred) ran
 ghost var gWroteHdr http.Header  // the writer's header map
+ghost var gHdrDom0 set[string]   // the header names the writer already had when the write-out started
 ghost var gWroteBody int     // bytes of the response body copied to the writer
 pred outStatusOf(r int) := ptr(r, "*httpprot.Response").Response.StatusCode
 
@@ -189,7 +190,7 @@ func (mi *muxInstance) getGlobalFilter() (gf *globalfilter.GlobalFilter)
 
 func (mi *muxInstance) serveHTTP(stdw http.ResponseWriter, stdr *http.Request)
   flag allocates
-  modifies allof("context.Context.activeNs"), allof("elem<string>"), allof("ghost:.arcAdded"), allof("ghost:.arcTyp"), allof("ghost:.arcVal"), allof("ghost:.limN"), allof("ghost:.limUnder"), allof("ghost:.rdRem"), allof("ghost:.wroteStatus"), allof("ghost:github.com/megaease/easegress/pkg/context.handledBy"), allof("ghost:github.com/megaease/easegress/pkg/context.handledCount"), allof("ghost:github.com/megaease/easegress/pkg/context.outResp"), allof("ghost:github.com/megaease/easegress/pkg/context.outRespTyp"), allof("ghost:github.com/megaease/easegress/pkg/object/httpserver.gBackend"), allof("ghost:github.com/megaease/easegress/pkg/object/httpserver.gBackendOK"), allof("ghost:github.com/megaease/easegress/pkg/object/httpserver.gFetchErr#typ"), allof("ghost:github.com/megaease/easegress/pkg/object/httpserver.gFetchErr#val"), allof("ghost:github.com/megaease/easegress/pkg/object/httpserver.gFetchLimit"), allof("ghost:github.com/megaease/easegress/pkg/object/httpserver.gFetched"), allof("ghost:github.com/megaease/easegress/pkg/object/httpserver.gPathAtFetch"), allof("ghost:github.com/megaease/easegress/pkg/object/httpserver.gRewritten"), allof("ghost:github.com/megaease/easegress/pkg/object/httpserver.gRouteCode"), allof("ghost:github.com/megaease/easegress/pkg/object/httpserver.gRoutePath"), allof("ghost:github.com/megaease/easegress/pkg/object/httpserver.gViaGlobalFilter"), allof("ghost:github.com/megaease/easegress/pkg/object/httpserver.gWrote"), allof("ghost:github.com/megaease/easegress/pkg/object/httpserver.gWroteBody"), allof("ghost:github.com/megaease/easegress/pkg/object/httpserver.gWroteHdr"), allof("ghost:github.com/megaease/easegress/pkg/object/httpserver.wi"), allof("ghost:github.com/megaease/easegress/pkg/object/httpserver.wj"), allof("map<string,[]string>#dom"), allof("map<string,[]string>#val#arr"), allof("map<string,[]string>#val#cap"), allof("map<string,[]string>#val#len"), allof("net/http.Request.Body#typ"), allof("net/http.Request.Body#val"), allof("net/url.URL.Path"), allof("ghost:github.com/megaease/easegress/pkg/filters.runFilter"), allof("ghost:github.com/megaease/easegress/pkg/filters.runLen"), allof("ghost:github.com/megaease/easegress/pkg/filters.runNS"), allof("ghost:github.com/megaease/easegress/pkg/filters.runResult"), allof("ghost:github.com/megaease/easegress/pkg/object/globalfilter.gfAfter"), allof("ghost:github.com/megaease/easegress/pkg/object/globalfilter.gfBefore"), allof("ghost:github.com/megaease/easegress/pkg/object/globalfilter.gfMain"), allof("ghost:github.com/megaease/easegress/pkg/object/globalfilter.gfRan"), allof("ghost:github.com/megaease/easegress/pkg/object/pipeline.endB"), allof("ghost:github.com/megaease/easegress/pkg/object/pipeline.endM"), allof("ghost:github.com/megaease/easegress/pkg/object/pipeline.runIdx"), allof("ghost:github.com/megaease/easegress/pkg/object/pipeline.segB"), allof("ghost:github.com/megaease/easegress/pkg/object/pipeline.segM")
+  modifies allof("ghost:github.com/megaease/easegress/pkg/object/httpserver.gHdrDom0"), allof("context.Context.activeNs"), allof("elem<string>"), allof("ghost:.arcAdded"), allof("ghost:.arcTyp"), allof("ghost:.arcVal"), allof("ghost:.limN"), allof("ghost:.limUnder"), allof("ghost:.rdRem"), allof("ghost:.wroteStatus"), allof("ghost:github.com/megaease/easegress/pkg/context.handledBy"), allof("ghost:github.com/megaease/easegress/pkg/context.handledCount"), allof("ghost:github.com/megaease/easegress/pkg/context.outResp"), allof("ghost:github.com/megaease/easegress/pkg/context.outRespTyp"), allof("ghost:github.com/megaease/easegress/pkg/object/httpserver.gBackend"), allof("ghost:github.com/megaease/easegress/pkg/object/httpserver.gBackendOK"), allof("ghost:github.com/megaease/easegress/pkg/object/httpserver.gFetchErr#typ"), allof("ghost:github.com/megaease/easegress/pkg/object/httpserver.gFetchErr#val"), allof("ghost:github.com/megaease/easegress/pkg/object/httpserver.gFetchLimit"), allof("ghost:github.com/megaease/easegress/pkg/object/httpserver.gFetched"), allof("ghost:github.com/megaease/easegress/pkg/object/httpserver.gPathAtFetch"), allof("ghost:github.com/megaease/easegress/pkg/object/httpserver.gRewritten"), allof("ghost:github.com/megaease/easegress/pkg/object/httpserver.gRouteCode"), allof("ghost:github.com/megaease/easegress/pkg/object/httpserver.gRoutePath"), allof("ghost:github.com/megaease/easegress/pkg/object/httpserver.gViaGlobalFilter"), allof("ghost:github.com/megaease/easegress/pkg/object/httpserver.gWrote"), allof("ghost:github.com/megaease/easegress/pkg/object/httpserver.gWroteBody"), allof("ghost:github.com/megaease/easegress/pkg/object/httpserver.gWroteHdr"), allof("ghost:github.com/megaease/easegress/pkg/object/httpserver.wi"), allof("ghost:github.com/megaease/easegress/pkg/object/httpserver.wj"), allof("map<string,[]string>#dom"), allof("map<string,[]string>#val#arr"), allof("map<string,[]string>#val#cap"), allof("map<string,[]string>#val#len"), allof("net/http.Request.Body#typ"), allof("net/http.Request.Body#val"), allof("net/url.URL.Path"), allof("ghost:github.com/megaease/easegress/pkg/filters.runFilter"), allof("ghost:github.com/megaease/easegress/pkg/filters.runLen"), allof("ghost:github.com/megaease/easegress/pkg/filters.runNS"), allof("ghost:github.com/megaease/easegress/pkg/filters.runResult"), allof("ghost:github.com/megaease/easegress/pkg/object/globalfilter.gfAfter"), allof("ghost:github.com/megaease/easegress/pkg/object/globalfilter.gfBefore"), allof("ghost:github.com/megaease/easegress/pkg/object/globalfilter.gfMain"), allof("ghost:github.com/megaease/easegress/pkg/object/globalfilter.gfRan"), allof("ghost:github.com/megaease/easegress/pkg/object/pipeline.endB"), allof("ghost:github.com/megaease/easegress/pkg/object/pipeline.endM"), allof("ghost:github.com/megaease/easegress/pkg/object/pipeline.runIdx"), allof("ghost:github.com/megaease/easegress/pkg/object/pipeline.segB"), allof("ghost:github.com/megaease/easegress/pkg/object/pipeline.segM")
   requires wfMux(mi) && routeConstants() && cacheInv(mi) && chainsOK(mi)
   requires mi.tracer != nil && mi.superSpec != nil && mi.superSpec.meta != nil && mi.spec != nil && mi.topN != nil && mi.muxMapper != nil
   requires mi.httpStat != nil && ifaceVal(stdw) != 0
@@ -223,15 +224,18 @@ func (mi *muxInstance) serveHTTP(stdw http.ResponseWriter, stdr *http.Request)
     requires ctx != nil && stdw != nil && ifaceVal(stdw) != 0 && mi != nil && mi.superSpec != nil && mi.superSpec.meta != nil && mi.httpStat != nil && topN != nil && body != nil && span != nil && req != nil && stdr != nil
     requires http-responses-are-complete: outResp != 0 && outRespTyp == typeTag("*httpprot.Response") ==> allocated(ptr(outResp, "*httpprot.Response")) && ptr(outResp, "*httpprot.Response").Response != nil && ptr(outResp, "*httpprot.Response").Response.Header != nil
     assume the-writers-header-map-is-its-own: forall x *http.Response :: ref(x.Header) != rwHdr(ifaceVal(stdw))
-    modifies gWrote, gWroteHdr, gWroteBody, wroteStatus, outResp, outRespTyp, rdRem, allof("map<string,[]string>#dom"), allof("map<string,[]string>#card"), allof("map<string,[]string>#val#arr"), allof("map<string,[]string>#val#len"), allof("map<string,[]string>#val#cap"), allof("elem<string>")
+    modifies gWrote, gWroteHdr, gHdrDom0, gWroteBody, wroteStatus, outResp, outRespTyp, rdRem, allof("map<string,[]string>#dom"), allof("map<string,[]string>#card"), allof("map<string,[]string>#val#arr"), allof("map<string,[]string>#val#len"), allof("map<string,[]string>#val#cap"), allof("elem<string>")
     ensures gWrote
     ensures a-missing-or-foreign-response-is-503: old(outResp) == 0 || old(outRespTyp) != typeTag("*httpprot.Response") ==> wroteStatus == 503
     ensures otherwise-the-response-is-sent-as-it-is: old(outResp) != 0 && old(outRespTyp) == typeTag("*httpprot.Response") ==> outResp == old(outResp) && wroteStatus == outStatusOf(outResp)
     ensures every-response-header-is-copied-to-the-writer: forall k string :: (k in ptr(outResp, "*httpprot.Response").Response.Header) ==> (k in gWroteHdr) && gWroteHdr[k] == ptr(outResp, "*httpprot.Response").Response.Header[k]
+    ensures no-header-is-invented-on-the-way-out: forall k string :: (k in gWroteHdr) ==> gHdrDom0[k] || (k in ptr(outResp, "*httpprot.Response").Response.Header)
     ensures a-buffered-body-is-written-in-full: ptr(outResp, "*httpprot.Response").stream == nil && len(ptr(outResp, "*httpprot.Response").payload) > 0 ==> gWroteBody == len(ptr(outResp, "*httpprot.Response").payload)
     ghost at entry: gWrote := true
     ghost at call[1] Header: gWroteHdr := h
+    ghost at call[1] Header: gHdrDom0 := domOf(h)
     ghost at call[1] Copy: gWroteBody := n
+    invariant[1] no-header-invented-so-far: forall k string :: (k in header) ==> gHdrDom0[k] || (k in resp.Response.Header)
     invariant[1] resp != nil && header != nil && ref(header) == rwHdr(ifaceVal(stdw)) && resp.Response != nil && resp.Response.Header != nil && ref(resp) == outResp
     invariant[1] response-headers-untouched: unchanged$1
     invariant[1] copied-so-far: forall j int :: 0 <= j && j < idx$1 ==> (keys$1[j] in header) && header[keys$1[j]] == resp.Response.Header[keys$1[j]]
